@@ -23,6 +23,7 @@ type bufLike interface {
 	WriteString(string) (int, error)
 	WriteByte(byte) error
 	WriteRune(rune) error
+	Grow(int)
 	VerifState() (mode int, markerOpen bool, validUntil, length, capacity int, backing []byte)
 	VerifPoison(c byte) int
 }
@@ -164,7 +165,7 @@ func (s *session) step(st *Step) {
 		s.setMode(st.I % 2)
 		s.mb.WriteRune(rune(st.I / 2))
 	case "grow":
-		s.mb.Grow(int(st.I))
+		s.b.Grow(int(st.I))
 	default:
 		if s.sb != nil {
 			e.safeStep(st, s.sb, nil, 'v')
